@@ -9,6 +9,12 @@ R4d  `let [mut] X[: T] = E.iter().map(|P| F).collect();`
      Only fires when the statement is exactly of that shape (the `.map(..)` is directly followed by `.collect()`),
      and the closure has exactly one parameter pattern and no `return`.
 
+R4g  `let [mut] X[: T] = E.iter().flat_map(|P| F).collect();`   with F a `Vec`
+        -> `let [mut] X[: T] = { let mut vx_v[: T] = Vec::new();
+                                  for vx_i in 0..E.len() { let P = &E[vx_i]; let mut vx_f = F; vx_v.append(&mut vx_f); } vx_v };`
+     as R4d; `flat_map` yields the items of each F in order and `collect` appends them: `Vec::append` moves exactly those
+     items, in order.  If F is not a `Vec` the rewritten text does not type-check.
+
 R4f  `for I in A..=B { S }`   (no `continue`/`break` in S)
         -> `{ let mut I = A; let vx_last = B; let mut vx_more = I <= vx_last;
               while vx_more { S  if I < vx_last { I += 1; } else { vx_more = false; } } }`
@@ -77,7 +83,7 @@ def r4f_range_inclusive(text, log):
             return text
 
 
-def r4d_map_collect(text, log):
+def _iter_adapter_collect(text, log, adapter, logname, emit):
     while True:
         st = sig(lex(text))
         done = True
@@ -129,7 +135,7 @@ def r4d_map_collect(text, log):
                 ty = span_text(text, st, k + 2, eq)
             elif eq != k + 1:
                 continue
-            im = _top_level_find(st, eq + 1, semi, [".", "iter", "(", ")", ".", "map", "("])
+            im = _top_level_find(st, eq + 1, semi, [".", "iter", "(", ")", ".", adapter, "("])
             if im is None or im == eq + 1:
                 continue
             mo = im + 6
@@ -157,15 +163,15 @@ def r4d_map_collect(text, log):
                 continue
             f_toks = [x.text for x in st[p_end + 1:mc]]
             if "return" in f_toks:
-                raise RewriteError("R4d: `return` inside mapped closure")
+                raise RewriteError("R4d/R4g: `return` inside mapped closure")
             e_txt = span_text(text, st, eq + 1, im)
             p_txt = span_text(text, st, mo + 2, p_end)
             f_txt = span_text(text, st, p_end + 1, mc)
             tyann = (": " + ty) if ty else ""
             new = ("let %s%s%s = { let mut vx_v%s = Vec::new(); for vx_i in 0..%s.len() { let %s = &%s[vx_i]; "
-                   "vx_v.push(%s); } vx_v };") % ("mut " if is_mut else "", name, tyann, tyann, e_txt, p_txt, e_txt, f_txt)
+                   "%s } vx_v };") % ("mut " if is_mut else "", name, tyann, tyann, e_txt, p_txt, e_txt, emit(f_txt))
             text = text[:t.start] + new + text[st[semi].end:]
-            log["R4d iter-map-collect -> push loop"] = log.get("R4d iter-map-collect -> push loop", 0) + 1
+            log[logname] = log.get(logname, 0) + 1
             done = False
             break
         if done:
@@ -231,4 +237,13 @@ def r9o_option_and_then(text, log):
             return text
 
 
-RULES = {"R4d": r4d_map_collect, "R4f": r4f_range_inclusive, "R9o": r9o_option_and_then}
+def r4d_map_collect(text, log):
+    return _iter_adapter_collect(text, log, "map", "R4d iter-map-collect -> push loop", lambda f: "vx_v.push(%s);" % f)
+
+
+def r4g_flat_map_collect(text, log):
+    return _iter_adapter_collect(text, log, "flat_map", "R4g iter-flat_map-collect -> append loop",
+                                 lambda f: "let mut vx_f = %s; vx_v.append(&mut vx_f);" % f)
+
+
+RULES = {"R4g": r4g_flat_map_collect, "R4d": r4d_map_collect, "R4f": r4f_range_inclusive, "R9o": r9o_option_and_then}
